@@ -18,15 +18,16 @@ Proof.
 Qed.
 
 Theorem rmw_value_ge_refs s t a s' :
-  Inv s -> a = AClone \/ a = ARelease -> step s t a = Ok s' -> refs (getth s t) <= val (hdm s).
+  Inv s -> a = AClone \/ a = ACloneB \/ a = ARelease -> step s t a = Ok s' -> refs (getth s t) <= val (hdm s).
 Proof.
   intros I Ha H.
   assert (Hlive : live s = true).
   { unfold step in H.
     destruct (negb (Nat.ltb t (length (ths s)))); [discriminate|].
     destruct (negb (started (getth s t))); [discriminate|].
-    destruct Ha as [-> | ->].
+    destruct Ha as [-> | [-> | ->]].
     - destruct (negb (Nat.ltb 0 (refs (getth s t)))); [discriminate|]. destruct (live s); [reflexivity|discriminate].
+    - destruct (Nat.eqb (lend (getth s t)) 0); [discriminate|]. destruct (live s); [reflexivity|discriminate].
     - destruct (negb (Nat.ltb 0 (refs (getth s t))) || mustfree (getth s t) || lends_from s t); [discriminate|].
       destruct (live s); [reflexivity|discriminate]. }
   destruct (J1 s I Hlive) as (_ & ->). unfold getth. apply total_ge.
